@@ -82,6 +82,8 @@ func (p *SliceLossIndication) Unmarshal(rawPacket []byte) error {
 
 	p.SenderSSRC = binary.BigEndian.Uint32(rawPacket[headerLength:])
 	p.MediaSSRC = binary.BigEndian.Uint32(rawPacket[headerLength+ssrcLength:])
+	// entries left over from an earlier Unmarshal into the same value are not part of this packet
+	p.SLI = nil
 	for i := headerLength + sliOffset; i < (headerLength + int(h.Length*4)); i += 4 {
 		sli := binary.BigEndian.Uint32(rawPacket[i:])
 		p.SLI = append(p.SLI, SLIEntry{
